@@ -5,7 +5,11 @@ Theorems: lean/I18nVerif/Theorems/C16.lean.  Correspondence: harness ctx_h (`ops
 `Context.Spec.observations`, compared with the implementation's observation after every step."""
 from .common import *
 
-RULE = ("random operation sequences (1..200 operations) over {new_root, sub(parent view or none, optional initial locale), "
+RULE = ("random operation sequences (1..200 operations) over {make_memo(view, kind in locale/t_string/td_string), "
+        "read_memo(i), provide_root (the real <I18nContextProvider>), child_owner(owner), provider(owner, optional initial "
+        "locale) (the real <I18nSubContextProvider>, children capture use_i18n() and their owner), use_ctx(owner), and the "
+        "composite pattern 'set_locale_untracked(x); set_locale(x) through a view of the same context; read earlier memos'} "
+        "in MIXED sequences with {new_root, sub(parent view or none, optional initial locale), "
         "scope(view), set(view, locale), set_untracked(view, locale), get(view), get_untracked(view), "
         "make_closure(view, kind in t/t_string/tu_string/t_display/td_string), call_closure(i)} on a growing forest of "
         "contexts; a quarter of the sequences use tracked sets only and also derive `Memo`s from the contexts; plus hand-written sequences (deep sub-context chains, scope cycles root->sub->deep->root keys, closures "
@@ -17,34 +21,55 @@ KINDS = ["t", "t_string", "tu_string", "t_display", "td_string"]
 PREFIX = {0: "hello_", 1: "inner_", 2: "leaf_"}
 
 
+MEMO_KINDS = ["locale", "t_string", "td_string"]
+
+
 def gen_sequence(rng, names, maxlen, tracked_only=False):
-    """tracked_only: no `set_locale_untracked` in the sequence; then `Memo`s derived from the context are created as
-    well (kind "memo") — a memo is notified by `set_locale` only, by design, so it is an accessor "observing the most
-    recently set locale" exactly in such sequences"""
+    """tracked_only: no `set_locale_untracked` in the sequence; then closures of kind "memo" are created as well (they
+    are compared like plain closures, which is only right without untracked sets).  The explicit memo operations
+    (`make_memo` / `read_memo`) are generated in every sequence: the model knows about laziness."""
     n = rng.range(1, maxlen)
     steps = []
-    nviews, nclosures = 0, 0
-    # first op: almost always a root context
-    for k in range(n):
+    nviews, nclosures, nmemos, nowners = 0, 0, 0, 0
+    alias = []        # view -> representative view of the same context, as far as the generator knows
+
+    def new_view(rep=None):
+        nonlocal nviews
+        alias.append(nviews if rep is None else alias[rep])
+        nviews += 1
+
+    def same_ctx_view(v):
+        cands = [w for w in range(nviews) if alias[w] == alias[v]]
+        return rng.pick(cands)
+
+    while len(steps) < n:
         if nviews == 0:
-            op = "new_root" if rng.chance(9, 10) else "sub_orphan"
+            op = rng.weighted([(6, "new_root"), (4, "provide_root"), (1, "sub_orphan")])
         else:
-            op = rng.weighted([(2, "new_root"), (8, "sub"), (1, "sub_orphan"), (10, "scope"), (20, "set"),
-                               (0 if tracked_only else 12, "set_untracked"), (12, "get"), (8, "get_untracked"),
-                               (10, "make_closure"),
-                               (18 if nclosures else 0, "call_closure")])
+            op = rng.weighted([(2, "new_root"), (2, "provide_root"), (6, "sub"), (1, "sub_orphan"), (9, "scope"), (16, "set"),
+                               (0 if tracked_only else 10, "set_untracked"), (10, "get"), (6, "get_untracked"),
+                               (7, "make_closure"), (12 if nclosures else 0, "call_closure"),
+                               (8, "make_memo"), (16 if nmemos else 0, "read_memo"),
+                               (0 if tracked_only or not nmemos else 8, "pattern_same_value"),
+                               (3 if nowners else 0, "child_owner"), (7 if nowners else 0, "provider"),
+                               (9 if nowners else 0, "use_ctx")])
         if op == "new_root":
             steps.append({"op": "new_root", "accept_language": rng.pick(names) if rng.chance(4, 5) else None})
-            nviews += 1
+            new_view()
+        elif op == "provide_root":
+            steps.append({"op": "provide_root", "accept_language": rng.pick(names) if rng.chance(4, 5) else None})
+            new_view()
+            nowners += 1
         elif op == "sub":
             steps.append({"op": "sub", "parent": rng.below(nviews), "initial": rng.pick(names) if rng.chance(2, 5) else None})
-            nviews += 1
+            new_view()
         elif op == "sub_orphan":
             steps.append({"op": "sub", "parent": None, "initial": rng.pick(names) if rng.chance(1, 2) else None})
-            nviews += 1
+            new_view()
         elif op == "scope":
-            steps.append({"op": "scope", "view": rng.below(nviews)})
-            nviews += 1
+            v = rng.below(nviews)
+            steps.append({"op": "scope", "view": v})
+            new_view(v)
         elif op in ("set", "set_untracked"):
             steps.append({"op": op, "view": rng.below(nviews), "locale": rng.pick(names)})
         elif op in ("get", "get_untracked"):
@@ -53,8 +78,36 @@ def gen_sequence(rng, names, maxlen, tracked_only=False):
             kind = "memo" if tracked_only and rng.chance(1, 2) else rng.pick(KINDS)
             steps.append({"op": "make_closure", "view": rng.below(nviews), "kind": kind})
             nclosures += 1
-        else:
+        elif op == "call_closure":
             steps.append({"op": "call_closure", "closure": rng.below(nclosures)})
+        elif op == "make_memo":
+            steps.append({"op": "make_memo", "view": rng.below(nviews), "kind": rng.pick(MEMO_KINDS)})
+            nmemos += 1
+        elif op == "read_memo":
+            steps.append({"op": "read_memo", "memo": rng.below(nmemos)})
+        elif op == "pattern_same_value":
+            # untracked set to x, then a tracked set to the same x through a view of the same context (often a scoped
+            # one), then read memos created earlier
+            v = rng.below(nviews)
+            x = rng.pick(names)
+            steps.append({"op": "set_untracked", "view": v, "locale": x})
+            if rng.chance(1, 3):
+                steps.append({"op": "read_memo", "memo": rng.below(nmemos)})
+            steps.append({"op": "set", "view": same_ctx_view(v) if rng.chance(5, 6) else rng.below(nviews), "locale": x})
+            for m in rng.sample(list(range(nmemos)), min(nmemos, rng.range(1, 5))):
+                steps.append({"op": "read_memo", "memo": m})
+        elif op == "child_owner":
+            steps.append({"op": "child_owner", "owner": rng.below(nowners)})
+            nowners += 1
+        elif op == "provider":
+            # siblings: prefer owners that already have providers below them
+            steps.append({"op": "provider", "owner": rng.below(nowners), "initial": rng.pick(names) if rng.chance(1, 3) else None})
+            new_view()
+            nowners += 1
+        elif op == "use_ctx":
+            # every owner descends from a provide_root, so a context is always found
+            steps.append({"op": "use_ctx", "owner": rng.below(nowners)})
+            new_view()
     return steps
 
 
@@ -108,6 +161,70 @@ def corpus(names):
         for c in range(5):
             s.append({"op": "call_closure", "closure": c})
     seqs.append(s)
+    # MIXED: memos of every kind on a context, its scoped views and a sub-context; for each locale x:
+    # set_locale_untracked(x), reads (stale by design), set_locale(x) — same value — through another view, reads (fresh)
+    s = [{"op": "new_root", "accept_language": "fr"}, {"op": "scope", "view": 0}, {"op": "scope", "view": 1},
+         {"op": "sub", "parent": 2, "initial": None}, {"op": "scope", "view": 3}]
+    nm = 0
+    for v in range(5):
+        for kind in MEMO_KINDS:
+            s.append({"op": "make_memo", "view": v, "kind": kind})
+            nm += 1
+    for m in range(nm):
+        s.append({"op": "read_memo", "memo": m})
+    for k, x in enumerate(names + names[:2]):
+        a, b = [(0, 2), (1, 0), (2, 1), (3, 4), (4, 3), (0, 0), (4, 4)][k]
+        s.append({"op": "set_untracked", "view": a, "locale": x})
+        for m in range(0, nm, 2):
+            s.append({"op": "read_memo", "memo": m})
+        s.append({"op": "set", "view": b, "locale": x})
+        for m in range(nm):
+            s.append({"op": "read_memo", "memo": m})
+        s.append({"op": "make_memo", "view": a, "kind": MEMO_KINDS[k % 3]})
+        nm += 1
+        s.append({"op": "read_memo", "memo": nm - 1})
+    seqs.append(s)
+    # never-read memo, then untracked + tracked same value; memo on a scoped view only
+    s = [{"op": "new_root", "accept_language": "en-US"}, {"op": "scope", "view": 0}, {"op": "make_memo", "view": 1, "kind": "t_string"},
+         {"op": "make_memo", "view": 0, "kind": "locale"}, {"op": "read_memo", "memo": 1},
+         {"op": "set_untracked", "view": 1, "locale": "de"}, {"op": "set", "view": 1, "locale": "de"},
+         {"op": "read_memo", "memo": 0}, {"op": "read_memo", "memo": 1},
+         {"op": "set_untracked", "view": 0, "locale": "fr"}, {"op": "read_memo", "memo": 0}, {"op": "set", "view": 0, "locale": "fr"},
+         {"op": "read_memo", "memo": 0}, {"op": "read_memo", "memo": 1}]
+    seqs.append(s)
+    # providers: root provided in owner 0; sibling providers with / without initial locale; use_i18n() in the parent
+    # owner after each provider returned; set through the context found in the parent owner; nested providers
+    s = [{"op": "provide_root", "accept_language": "fr"},                 # view 0, owner 0, ctx 0
+         {"op": "provider", "owner": 0, "initial": "de"},                 # view 1, owner 1, ctx 1
+         {"op": "use_ctx", "owner": 0},                                   # view 2 -> ctx 0
+         {"op": "provider", "owner": 0, "initial": None},                 # view 3, owner 2, ctx 2 (starts fr, not de)
+         {"op": "get", "view": 3}, {"op": "use_ctx", "owner": 0},         # view 4 -> ctx 0
+         {"op": "set", "view": 4, "locale": "en-US"},                     # parent only
+         {"op": "get", "view": 0}, {"op": "get", "view": 1}, {"op": "get", "view": 3},
+         {"op": "provider", "owner": 0, "initial": None},                 # view 5, owner 3, ctx 3 (starts en-US)
+         {"op": "get", "view": 5},
+         {"op": "set", "view": 1, "locale": "fr-CA"}, {"op": "set_untracked", "view": 3, "locale": "de"},
+         {"op": "provider", "owner": 0, "initial": None},                 # view 6, owner 4, ctx 4 (still en-US)
+         {"op": "get", "view": 6}, {"op": "use_ctx", "owner": 1}, {"op": "use_ctx", "owner": 2},   # views 7 -> ctx1, 8 -> ctx2
+         {"op": "provider", "owner": 1, "initial": None},                 # nested under the first sibling: view 9, owner 5, starts fr-CA
+         {"op": "get", "view": 9}, {"op": "use_ctx", "owner": 1}, {"op": "use_ctx", "owner": 0},   # views 10 -> ctx1, 11 -> ctx0
+         {"op": "child_owner", "owner": 5}, {"op": "use_ctx", "owner": 6},                         # owner 6; view 12 -> ctx 5
+         {"op": "provider", "owner": 6, "initial": "en"}, {"op": "use_ctx", "owner": 6}, {"op": "use_ctx", "owner": 5},
+         {"op": "set", "view": 12, "locale": "de"}, {"op": "get", "view": 9}, {"op": "get", "view": 1}, {"op": "get", "view": 0}]
+    for v in range(16):
+        s.append({"op": "get_untracked", "view": v})
+    seqs.append(s)
+    # two provided roots side by side, providers under each, memos on the contexts found through use_i18n()
+    s = [{"op": "provide_root", "accept_language": "de"}, {"op": "provide_root", "accept_language": None},
+         {"op": "provider", "owner": 1, "initial": None}, {"op": "provider", "owner": 0, "initial": None},
+         {"op": "use_ctx", "owner": 0}, {"op": "use_ctx", "owner": 1}, {"op": "use_ctx", "owner": 2}, {"op": "use_ctx", "owner": 3},
+         {"op": "make_memo", "view": 4, "kind": "locale"}, {"op": "make_memo", "view": 6, "kind": "t_string"},
+         {"op": "read_memo", "memo": 0}, {"op": "read_memo", "memo": 1},
+         {"op": "set_untracked", "view": 0, "locale": "fr"}, {"op": "set", "view": 4, "locale": "fr"},
+         {"op": "read_memo", "memo": 0}, {"op": "read_memo", "memo": 1},
+         {"op": "set", "view": 2, "locale": "fr-CA"}, {"op": "read_memo", "memo": 1}, {"op": "read_memo", "memo": 0},
+         {"op": "provider", "owner": 1, "initial": None}, {"op": "get", "view": 8}]
+    seqs.append(s)
     # sub-contexts without any parent context, several roots
     s = [{"op": "sub", "parent": None, "initial": None}, {"op": "sub", "parent": None, "initial": "fr"},
          {"op": "new_root", "accept_language": "en-US"}, {"op": "new_root", "accept_language": "xx"},
@@ -129,18 +246,46 @@ def to_model(steps, idx):
         elif op == "sub":
             out.append({"op": "sub", "parent": s["parent"], "initial": None if s["initial"] is None else idx[s["initial"]],
                         "fallback": 0})
+        elif op == "provide_root":
+            al = s["accept_language"]
+            out.append({"op": "provide_root", "init": idx.get(al, 0) if al is not None else 0})
+        elif op == "provider":
+            out.append({"op": "provider", "owner": s["owner"], "initial": None if s["initial"] is None else idx[s["initial"]],
+                        "fallback": 0})
         elif op in ("set", "set_untracked"):
             out.append({"op": op, "view": s["view"], "locale": idx[s["locale"]]})
-        elif op == "make_closure":
+        elif op in ("make_closure", "make_memo"):
             out.append({"op": op, "view": s["view"]})
         else:
             out.append(dict(s))
     return out
 
 
-def impl_obs(step, o, levels, idx):
+def impl_obs(step, o, levels, idx, mlevels=None):
     """normalise one observation of the harness into the model's vocabulary; returns (obs, error or None)"""
     op = step["op"]
+    if op == "make_memo":
+        mlevels.append((o["level"], step["kind"]))
+        return {"memo": o["memo"]}, None
+    if op == "read_memo":
+        level, kind = mlevels[step["memo"]]
+        text = o["text"]
+        if kind == "locale":
+            if text not in idx:
+                return {"text": text}, f"memo over get_locale() returned {text!r}"
+            return {"locale": idx[text]}, None
+        pre = PREFIX[level]
+        if not text.startswith(pre) or text[len(pre):] not in idx:
+            return {"text": text}, f"memo rendered {text!r}, not a {pre}<locale> text"
+        return {"locale": idx[text[len(pre):]]}, None
+    if op in ("provide_root", "provider"):
+        return {"ctx": o["ctx"], "owner": o["owner"], "view": o["view"]}, None
+    if op == "child_owner":
+        return {"owner": o["owner"]}, None
+    if op == "use_ctx":
+        if o.get("not_found"):
+            return {"not_found": True}, None
+        return {"ctx": o["ctx"], "view": o["view"]}, None
     if op in ("new_root", "sub", "scope"):
         return {"view": o["view"]}, None
     if op in ("set", "set_untracked"):
@@ -164,7 +309,7 @@ def nontrivial(steps):
     for s in steps:
         if s["op"] in ("set", "set_untracked"):
             seen_set = True
-        elif seen_set and s["op"] in ("get", "get_untracked", "call_closure"):
+        elif seen_set and s["op"] in ("get", "get_untracked", "call_closure", "read_memo", "use_ctx"):
             return True
     return False
 
@@ -184,10 +329,10 @@ def evaluate(ctx, binr, names, idx, seqs, record=True):
     for (s, r), m in zip(keep, model):
         if m["model"] != m["spec"]:
             raise HarnessError("model violates its own proved specification: " + json.dumps(s))
-        levels = []
+        levels, mlevels = [], []
         spec_bad = model_bad = None
         for k, (st, o) in enumerate(zip(s, r["obs"])):
-            io, err = impl_obs(st, o, levels, idx)
+            io, err = impl_obs(st, o, levels, idx, mlevels)
             if err or io != m["spec"][k]:
                 spec_bad = (k, io, m["spec"][k], err)
                 break
@@ -205,6 +350,8 @@ def evaluate(ctx, binr, names, idx, seqs, record=True):
                 ctx.count("op=" + st["op"])
                 if st["op"] == "make_closure":
                     ctx.count("closure_kind=" + st["kind"])
+                if st["op"] == "make_memo":
+                    ctx.count("memo_kind=" + st["kind"])
             ctx.count("contexts", m["contexts"])
             ctx.count("views", len(m["final"]))
         if spec_bad:
@@ -253,7 +400,10 @@ def run(ctx):
     ctx.assumptions += [
         "leptos reactive runtime trusted (RwSignal atomic get/set; closures are re-invoked by the harness, not by a renderer)",
         "cookies disabled for the contexts of the sequences; sub-contexts created with constant (non-reactive) initial locale",
-        "initial locale of new_root taken from an exact-name Accept-Language header (resolution itself is property C15)",
+        "initial locale of new_root / provide_root taken from an exact-name Accept-Language header (resolution itself is property C15)",
+        "'reactive accessor' = leptos' lazy Memo: cached value, invalidated by tracked sets only (RwSignal::set notifies even for an equal value), recomputed at the next read — modelled explicitly and compared on every read_memo",
+        "which context use_i18n() returned is identified through the public API (distinguishable untracked write, read through one representative view per context, restore)",
+        "providers are the real <I18nContextProvider>/<I18nSubContextProvider> components of the declare_locales! module, built with view! (not rendered to HTML); islands variants not built",
         "single-threaded deterministic executor for leptos' isomorphic effects in the harness",
     ]
     finish_broken(ctx, f"{len(seqs)} operation sequences, every observation compared with the specification")
